@@ -651,6 +651,7 @@ handle_new_connection(struct qb_ipcs_service *s,
 	struct qb_ipc_connection_response response;
 	const char suffix[] = "/qb";
 	int desc_len;
+	int dir_len = 0;
 
 	c = qb_ipcs_connection_alloc(s);
 	if (c == NULL) {
@@ -687,16 +688,15 @@ handle_new_connection(struct qb_ipcs_service *s,
 		res = -ENAMETOOLONG;
 		goto send_response;
 	}
+	/*
+	 * mkdtemp() makes the directory 0700 and ours; it stays that way
+	 * until the accept callback has said who may have it.
+	 */
 	if (mkdtemp(c->description) == NULL) {
 		res = -errno;
 		goto send_response;
 	}
-	if (chmod(c->description, 0770)) {
-		res = -errno;
-		goto send_response;
-	}
-	/* chown can fail because we might not be root */
-	(void)chown(c->description, c->auth.uid, c->auth.gid);
+	dir_len = desc_len;
 
 	/* We can't pass just a directory spec to the clients */
 	memcpy(c->description + desc_len, suffix, sizeof suffix);
@@ -721,6 +721,34 @@ handle_new_connection(struct qb_ipcs_service *s,
 	}
 	if (res != 0) {
 		goto send_response;
+	}
+
+	if (dir_len > 0) {
+		/*
+		 * Hand the directory over to the owner, group and mode the
+		 * accept callback authorised (qb_ipcs_connection_auth_set(),
+		 * by default the peer and 0600): whoever may read or write
+		 * the files may search the directory, nobody else.
+		 * Narrow first, change the owner, then open up, so that it
+		 * is never more accessible than that.
+		 */
+		mode_t dir_mode = c->auth.mode |
+			((c->auth.mode & (S_IRUSR | S_IRGRP | S_IROTH)) >> 2) |
+			((c->auth.mode & (S_IWUSR | S_IWGRP | S_IWOTH)) >> 1);
+
+		c->description[dir_len] = '\0';
+		if (chmod(c->description, dir_mode & S_IRWXU)) {
+			res = -errno;
+		}
+		/* chown can fail because we might not be root */
+		(void)chown(c->description, c->auth.uid, c->auth.gid);
+		if (res == 0 && chmod(c->description, dir_mode)) {
+			res = -errno;
+		}
+		c->description[dir_len] = '/';
+		if (res != 0) {
+			goto send_response;
+		}
 	}
 
 	qb_util_log(LOG_DEBUG, "IPC credentials authenticated (%s)",
